@@ -32,7 +32,9 @@ class StateNameMixin:
                     raise ValueError(f"Repeated statenames for variable: {key}")
 
             # Make a copy, so that the original object doesn't get modified after operations.
-            self.state_names = state_names.copy()
+            self.state_names = {
+                var: list(names) for var, names in state_names.items()
+            }
             # Create maps for easy access to specific state names of state numbers.
             if state_names:
                 self.name_to_no = {}
